@@ -231,6 +231,21 @@ def job(cfg):
         check("Inv(mat) @ mat == I", prod, eye, None)
         res.record(f"{tag} Inv type", Outcome("held", how="structure") if isinstance(invA, FeArray) else Outcome("cex", env={}, how="structure"),
                    lambda env: (True, {"Inv_returns_FeArray": isinstance(invA, FeArray)}), key=f"{tag} Inv keeps FeArray type")
+        # the same identity in small units (entries x 2^-20: determinants of 1e-12 and below): no absolute magnitude decides anything
+        As = A * Fraction(1, 2 ** 20)
+        try:
+            with facade.symbolic():
+                facade.install()
+                invAs, detAs = Inv(As), Det(As)
+            tiny_err = None
+        except Exception as e:
+            tiny_err = e
+        if tiny_err is not None:
+            res.record(f"{tag} Inv / Det in small units", Outcome("cex", env=dict(ctx().shadow), how="shadow", detail=repr(tiny_err)[:120]),
+                       lambda env, e=tiny_err: (True, {"op": "Inv / Det of a field with entries x 2^-20", "raised": repr(e)[:200]}), key=f"{tag} Inv / Det in small units")
+        else:
+            check("Inv(mat x 2^-20) @ (mat x 2^-20) == I", per_point(Ne, nPg, mm, ("F", invAs), ("F", As)), eye, None)
+            check("Det(mat x 2^-20)", detAs, per_point(Ne, nPg, det_plain, ("F", As)), True)
         # coefficients held per element / constant, brought to field shape by FeArray.broadcast (stride-0 views along the broadcast axes):
         # Det / Inv / Trace / matmul see the value of EACH element
         PE = sym_array("pe", (Ne, dim, dim), 1, 2)
